@@ -103,10 +103,12 @@ type Symbolizer struct {
 	busy      map[ssa.Value]bool
 	closureOf map[*ssa.Function]*ssa.MakeClosure
 	loopHits  int
+	inlining  map[*ssa.Function]bool
+	inlOK     map[*ssa.Function]bool
 }
 
 func newSymbolizer(p *Program) *Symbolizer {
-	s := &Symbolizer{prog: p, rootTypes: map[*types.Named]bool{}, cache: map[ssa.Value]*Sym{}, busy: map[ssa.Value]bool{}, closureOf: map[*ssa.Function]*ssa.MakeClosure{}}
+	s := &Symbolizer{prog: p, rootTypes: map[*types.Named]bool{}, cache: map[ssa.Value]*Sym{}, busy: map[ssa.Value]bool{}, closureOf: map[*ssa.Function]*ssa.MakeClosure{}, inlining: map[*ssa.Function]bool{}, inlOK: map[*ssa.Function]bool{}}
 	for _, pkg := range []*ssa.Package{p.Leader, p.Mock} {
 		if pkg == nil {
 			continue
@@ -377,6 +379,42 @@ func (s *Symbolizer) ofCall(c *ssa.CallCommon) *Sym {
 		args = append(args, s.Of(a))
 	}
 	if f := c.StaticCallee(); f != nil {
+		if s.inlinable(f) && !s.inlining[f] && len(s.inlining) < 3 {
+			// a small pure helper of the library: describe the value it returns, with its
+			// parameters replaced by the arguments (extract-method refactorings keep their canonical form)
+			s.inlining[f] = true
+			defer delete(s.inlining, f)
+			var rets []*Sym
+			for _, b := range f.Blocks {
+				if b == f.Recover {
+					continue
+				}
+				if ret, ok := b.Instrs[len(b.Instrs)-1].(*ssa.Return); ok && len(ret.Results) == 1 {
+					rets = append(rets, s.Of(returnValue(ret, 0)))
+				}
+			}
+			if len(rets) > 0 {
+				sub := map[string]*Sym{}
+				for i, p := range f.Params {
+					if i < len(args) {
+						sub["param:"+p.Name()] = args[i]
+					}
+				}
+				var out *Sym
+				if len(rets) == 1 {
+					out = substSym(rets[0], sub)
+				} else {
+					var as []*Sym
+					for _, r := range rets {
+						as = append(as, substSym(r, sub))
+					}
+					out = &Sym{Op: "phi", Args: as}
+				}
+				cp := *out
+				cp.str = ""
+				return &cp
+			}
+		}
 		return &Sym{Op: "call", Name: funcName(f), Args: args}
 	}
 	if b, ok := c.Value.(*ssa.Builtin); ok {
@@ -542,4 +580,137 @@ func calleeName(c *ssa.CallCommon) string {
 		return "builtin." + b.Name()
 	}
 	return "dynamic"
+}
+
+// inlinable: a small, loop-free, single-result function of the library that only reads
+// (no stores to shared memory, no goroutines, no channel operations, no store operations).
+func (s *Symbolizer) inlinable(f *ssa.Function) bool {
+	if v, ok := s.inlOK[f]; ok {
+		return v
+	}
+	ok := func() bool {
+		if f == nil || f.Blocks == nil || f.Parent() != nil || f.Pkg == nil || f.Pkg != s.prog.Leader {
+			return false
+		}
+		if f.Signature.Results().Len() != 1 || len(f.Blocks) > 16 {
+			return false
+		}
+		// functions returning an error are operations, not value helpers
+		if types.Identical(f.Signature.Results().At(0).Type(), types.Universe.Lookup("error").Type()) {
+			return false
+		}
+		// exported package-level functions are API with their own rules (CalculateBackoff, ...)
+		if f.Signature.Recv() == nil && f.Object() != nil && f.Object().Exported() {
+			return false
+		}
+		// loop-free
+		seen := map[*ssa.BasicBlock]int{}
+		var cyc bool
+		var dfs func(b *ssa.BasicBlock)
+		dfs = func(b *ssa.BasicBlock) {
+			seen[b] = 1
+			for _, x := range b.Succs {
+				if seen[x] == 1 {
+					cyc = true
+				} else if seen[x] == 0 {
+					dfs(x)
+				}
+			}
+			seen[b] = 2
+		}
+		dfs(f.Blocks[0])
+		if cyc {
+			return false
+		}
+		for _, b := range f.Blocks {
+			for _, in := range b.Instrs {
+				switch x := in.(type) {
+				case *ssa.Go, *ssa.Send, *ssa.Select, *ssa.MapUpdate, *ssa.Panic:
+					return false
+				case *ssa.Defer:
+					if c := x.Call.StaticCallee(); c == nil || c.Pkg == nil || c.Pkg.Pkg.Path() != "sync" {
+						return false
+					}
+				case *ssa.Store:
+					if _, isLocal := x.Addr.(*ssa.Alloc); !isLocal {
+						if fa, ok := x.Addr.(*ssa.FieldAddr); ok {
+							if _, isLocal := fa.X.(*ssa.Alloc); isLocal {
+								continue
+							}
+						}
+						if ia, ok := x.Addr.(*ssa.IndexAddr); ok {
+							if _, isLocal := ia.X.(*ssa.Alloc); isLocal {
+								continue
+							}
+						}
+						return false
+					}
+				case *ssa.Call:
+					if x.Call.IsInvoke() {
+						n := namedOf(x.Call.Value.Type())
+						if n != nil && n.Obj().Pkg() == s.prog.Leader.Pkg {
+							return false // store / logger / metrics / monitor operations are not pure reads
+						}
+					}
+					if c := x.Call.StaticCallee(); c != nil && c.Pkg != nil {
+						switch c.Pkg.Pkg.Path() {
+						case "sync/atomic":
+							if c.Name() != "Load" {
+								return false
+							}
+						case "encoding/json":
+							return false
+						}
+					}
+				}
+			}
+		}
+		return true
+	}()
+	s.inlOK[f] = ok
+	return ok
+}
+
+// substSym replaces parameter leaves by the argument expressions.
+func substSym(x *Sym, sub map[string]*Sym) *Sym {
+	if x == nil {
+		return nil
+	}
+	switch x.Op {
+	case "param":
+		if a, ok := sub[x.Name]; ok {
+			return a
+		}
+		return x
+	case "path", "addr", "local":
+		for k, a := range sub {
+			if x.Name == k {
+				return a
+			}
+			if strings.HasPrefix(x.Name, k+".") {
+				base := a.String()
+				if a.Op != "path" && a.Op != "param" && a.Op != "local" {
+					base = "(" + base + ")"
+				}
+				base = strings.TrimPrefix(base, "&")
+				return &Sym{Op: x.Op, Name: base + strings.TrimPrefix(x.Name, k), V: x.V, Typ: x.Typ}
+			}
+		}
+		return x
+	}
+	if len(x.Args) == 0 {
+		return x
+	}
+	changed := false
+	args := make([]*Sym, len(x.Args))
+	for i, a := range x.Args {
+		args[i] = substSym(a, sub)
+		if args[i] != a {
+			changed = true
+		}
+	}
+	if !changed {
+		return x
+	}
+	return &Sym{Op: x.Op, Name: x.Name, Args: args, V: x.V, Typ: x.Typ}
 }
